@@ -1,7 +1,5 @@
 """C06 — reim / cplx FFT and iFFT equal the mathematical transform, in documented order.
 
-NOT decided: the floating-point error of the data path (the 8*log2(2m)*2^-53 norm bound) - that is a round-off
-analysis over all inputs.
 Decided:
  T  matrix of the transform: for every m of the box, for reim_fft / cplx_fft (and the inverses) as reached through the
     public entry points under both CPU configurations, the E4 expression of every output is a *linear form* in the abstract
@@ -23,6 +21,14 @@ Decided:
  U  no uninitialised table read: every twiddle operand is a value the constructor wrote (no output depends on initial
     table memory).
  I  round trip: ifft(fft(z)) has the matrix m*Id within the same tolerance.
+ E  a-priori rounding-error bound (E7, spqa/fperr.py): the transform is run once in one-step mode, every addition node of
+    the data path is a stage, stages are scheduled into levels (sums / rotations), each level is a block-diagonal map whose
+    exact (exact-twiddle) singular values, twiddle perturbation and rounding matrix are computed at 200 bits under a
+    weighting that makes the levels orthogonal; the resulting norm-wise bound of ||computed - DFT|| / ||DFT|| is compared
+    with 8*log2(2m)*2^-53: reference path m <= 1024 (thorough 16384), AVX C kernels m <= 8, forward and inverse, both
+    layouts.  Standard model of floating-point arithmetic (no underflow/overflow), fma counted as two roundings.  If the
+    bound cannot be established (unknown operation, a multiplier that is not a root-of-unity component, assembly leaf) the
+    clause gives no verdict.
  R  tables are read-only: no transform writes through its PRECOMP argument (E2, all candidates) - repeated calls see
     identical tables.
 Assembly 16-point kernels: arithmetic not modelled (footprint only, C07); larger m (the 2048 bfs/rec switch): memory
@@ -148,6 +154,55 @@ def _sampled_job(args):
     t.start()
     t.join()
     return out.get('r', (None, 0, 'worker died'))
+
+
+def _error_bound_job(args):
+    """E7 for one (transform, m, cpu): (bound in units of u, levels, worst twiddle distance in u) or a reason"""
+    import sys
+    import threading
+    name, m, cpu = args
+    out = {}
+
+    def work():
+        from ..fperr import NoVerdict, analyse_dag
+        try:
+            L = ctx.lib()
+            box = KBox(L)
+            c = box.get(cpu, 'values')
+            orig = c.buf
+            holder = {}
+
+            def buf(nm, nb, role):
+                p = orig(nm, nb, role)
+                if nm == 'data':
+                    p.obj.onestep = {'gen': {}, 'defs': {}}
+                    holder['obj'] = p.obj
+                return p
+            c.buf = buf
+            c.m.record = False
+            try:
+                r = box.instantiate(name, KERNELS('quick')[name], {'m': m}, cpu, expand='values')
+            finally:
+                c.buf = orig
+                c.m.record = True
+            if r.status != 'ok':
+                out['r'] = ('status', 'call %s' % (r.status,))
+                return
+            res = analyse_dag(holder['obj'].onestep['defs'], name, m)
+            out['r'] = ('ok', res['bound_in_u'], res['levels'], res['worst_constant_error_in_u'])
+        except NoVerdict as e:
+            out['r'] = ('noverdict', str(e)[:300])
+        except (Unsupported, NeedEnum) as e:
+            out['r'] = ('noverdict', str(e)[:300])
+        except Exception as e:  # noqa
+            out['r'] = ('broke', 'internal error: %r' % (e,))
+
+    sys.setrecursionlimit(500000)
+    threading.stack_size(512 * 1024 * 1024)
+    t = threading.Thread(target=work)
+    t.start()
+    t.join()
+    return out.get('r', ('broke', 'worker died'))
 
 
 def check_transform(box, K, name, layout, m, cpu, inverse, R):
@@ -330,6 +385,45 @@ def run(tier):
                  key='%s:generic:sampled-matrix' % name, witness={'m': bad[0]})
         else:
             R.ob('sampled-rows-of-large-transforms-are-the-dft', '%s [generic]' % name, 'holds', detail='m in %s, 9 outputs each' % big)
+    # E: a-priori rounding-error bound (E7, spqa/fperr.py) against the property's 8*log2(2m)*2^-53, norm-wise
+    from math import log2 as _log2
+    eb_ms = [2, 4, 8, 16, 64, 256, 1024] if tier == 'quick' else [2, 4, 8, 16, 32, 64, 128, 256, 512, 1024, 2048, 4096, 16384]
+    ejobs = [(name, m, 'generic') for (name, _, _) in fams for m in eb_ms] + \
+            [(name, m, 'accel') for (name, _, _) in fams for m in (2, 4, 8)]
+    with ProcessPoolExecutor(max_workers=min(12, len(ejobs))) as ex:
+        eres = list(ex.map(_error_bound_job, ejobs))
+    nbound = 0
+    table = {}
+    for (name, _, _) in fams:
+        for cpu in ('generic', 'accel'):
+            worst = None
+            unk = None
+            mset = []
+            for (jn, m, jc), rr in zip(ejobs, eres):
+                if jn != name or jc != cpu:
+                    continue
+                if rr[0] == 'broke':
+                    R.broke('%s m=%d [%s] error bound: %s' % (name, m, cpu, rr[1]))
+                elif rr[0] != 'ok':
+                    unk = unk or 'm=%d: %s' % (m, rr[1])
+                else:
+                    nbound += 1
+                    mset.append(m)
+                    prop = 8 * _log2(2 * m)
+                    table['%s m=%d [%s]' % (name, m, cpu)] = {'proved_in_u': round(rr[1], 2), 'property_in_u': prop,
+                                                               'levels': rr[2], 'worst_twiddle_distance_in_u': round(rr[3], 2)}
+                    if rr[1] > prop and (worst is None or rr[1] / prop > worst[1] / worst[2]):
+                        worst = (m, rr[1], prop)
+            subj = '%s [%s]' % (name, cpu)
+            if unk or worst:
+                # an a-priori bound that cannot be established is no verdict on the code (it is an upper bound only)
+                R.ob('a-priori-rounding-error-bound-within-the-stated-bound', subj, 'unknown',
+                     detail=unk or 'm=%d: the provable bound is %.1f u, the stated bound is %.1f u' % worst)
+            else:
+                R.ob('a-priori-rounding-error-bound-within-the-stated-bound', subj, 'holds',
+                     detail='m in %s%s' % (mset, '; larger m pass through the assembly leaves (not modelled)' if cpu == 'accel' else ''))
+    R.floor('(transform, m, cpu) a-priori error bounds established', nbound, 30)
+    R.extra['error_bounds'] = table
     for (nf, ni, cf, ci, layout) in (('reim_fft', 'reim_ifft', 'new_reim_fft_precomp', 'new_reim_ifft_precomp', 'reim'),
                                      ('cplx_fft', 'cplx_ifft', 'new_cplx_fft_precomp', 'new_cplx_ifft_precomp', 'cplx')):
         for cpu in ('generic', 'accel'):
